@@ -90,6 +90,13 @@ var markupCarriers = []carrier{
 	{"html:blockquote-li", "text/html", "<blockquote><ul><li>a{}b</li></ul></blockquote>"},
 	{"html:h1", "text/html", "<h1>a{}b</h1>"},
 	{"html:comment-and-script", "text/html", "<!-- {} --><script>{}</script>x"},
+	// positions in the tree that a walk reaches only after closing several elements in a
+	// row, after a sibling subtree, and deep inside one
+	{"html:text-after-double-close", "text/html", "<p><b><i>x</i></b>a{}b</p>"},
+	{"html:attr-after-double-close", "text/html", `<div><p><b><i>x</i></b></p><img src="https://l.example/i" alt="a{}b"></div>`},
+	{"html:second-top-level-after-deep", "text/html", "<ul><li><b><i>x</i></b></li></ul><p>a{}b</p>"},
+	{"html:deep", "text/html", "<blockquote><ul><li><p><b><i><u>a{}b</u></i></b></p></li></ul></blockquote>"},
+	{"md:text-after-nested-emphasis", "text/markdown", "**_x_** a{}b"},
 	{"md:text", "text/markdown", "a{}b"},
 	{"md:link-dest", "text/markdown", "[x](https://l.example/{})"},
 	{"md:link-title", "text/markdown", `[x](https://l.example/u "t{}")`},
@@ -504,7 +511,7 @@ func runFrames(r *ev.Report, a rune, n int) {
 
 func main() {
 	r := ev.New("C01", "exploration",
-		"atoms: every C0/DEL/C1 code point except newline (quick: NUL,BEL,BS,TAB,ESC,DEL,CSI,OSC), each followed by the tell-tale '[7m'; 32 markup carriers (HTML text/attributes/pre/code/unknown tag, Markdown text/destination/title/code/autolink/alt/raw HTML, gemtext, plain text) x 7 encodings "+
+		"atoms: every C0/DEL/C1 code point except newline (quick: NUL,BEL,BS,TAB,ESC,DEL,CSI,OSC), each followed by the tell-tale '[7m'; 37 markup carriers (HTML text/attributes/pre/code/unknown tag, text and attributes after several closing tags in a row and deep inside nested elements, Markdown text/destination/title/code/autolink/alt/raw HTML, gemtext, plain text) x 7 encodings "+
 			"(raw, decimal/hex/zero-padded/semicolon-less references, double-encoded, named) through Markup.Render, Post.String/Preview, Actor.String/Preview; every string field of actors, posts, activities and their nested links (with a name and without one, so that the address itself is displayed), authors and collections as string, list, object, hostile key, entity-in-plain-field, percent-encoded inside a URL (host; path, query and fragment) and raw inside a URL's query or opaque part; "+
 			"13 positions in raw HTTP responses (status line, Content-Type, Location, body, header name) x start/middle/end through pub.New's failure item and through 10 kinds of document that refer to the failing URL (actor outbox, activity actor/object, post author/audience/parent/replies, collection first page), with every related item inspected; UI frames (normal, selection, opening, problem, command footers) for worlds carrying the atoms; widths {1,2,7,80,81}; "+
 			"distinct_nontrivial = (carrier, atom, encoding) triples")
